@@ -1273,7 +1273,10 @@ impl<'a> ApplicableAttr<'a> {
                     None => or()
                 }
             }
-            ApplicableAttr::Ghost(_) => unreachable!("11"),
+            ApplicableAttr::Ghost(ghost_attr) => match ghost_attr.action.as_ref() {
+                Some(val) => quote_action(val, None, ctx),
+                None => or(),
+            },
         }
     }
 
